@@ -246,12 +246,14 @@ JUSTIFIED = {
     ("montgomery_backend::inv", "wrapping_mul", "wrap"): "Newton iteration for -p^-1 modulo 2^64",
     ("montgomery_backend::inv", "wrapping_neg", "wrap"): "negation modulo 2^64 of the inverse",
 }
+JUSTIFIED[("arithmetic::find_naf", "fold<sbb>", "unused")] = "subtracts z = 1 from an odd (hence non-zero) value: no borrow"
 FLAGGED = {'add_with_carry', 'sub_with_borrow', 'mul2', 'const_add_with_carry', 'const_sub_with_borrow', 'const_mul2', 'const_mul2_with_carry', 'adc', 'sbb', 'adc_for_add_with_carry', 'sbb_for_sub_with_borrow', 'overflowing_add', 'overflowing_sub', 'overflowing_mul', 'carrying_add', 'borrowing_sub'}
 
 
 def check_discard(res, facts):
     rule = res.rule("R-DISCARD", "dropped carry / borrow flags and wrapping operations in ark-ff big-integer and prime-field code are all in the table of justified sites", 12)
     from collections import Counter
+    from arklib.facts import rv_places
     seen = set()
     for fn in facts.fns(unit="ws", crate="ark_ff"):
         if "::tests::" in fn.id or "::test::" in fn.id:
@@ -286,6 +288,18 @@ def check_discard(res, facts):
                                 uses[l] += 1
                 if uses[d] == 0 and d != 0:
                     kind = "unused"
+            elif n in ("fold", "try_fold") and len(t["args"]) == 3:
+                # a carry chain written as a fold: the closure threads the flag of adc / sbb as the accumulator,
+                # the fold's own result is the carry out of the top limb
+                inner = [c for c in facts.fns(unit="ws", crate="ark_ff") if c.kind == "Closure" and c.id.startswith(fn.id + "::{closure") and any((t2["f"].get("name") or "") in FLAGGED for _, t2 in c.calls())]
+                d = place_parts(t["d"])[0]
+                if inner:
+                    used = any(d in [place_parts(p)[0] for p in rv_places(s2["r"])] for _, _, s2 in fn.stmts() if s2.get("r")) or \
+                        any(op_local(a) == d for _, t2 in fn.calls() for a in t2["args"]) or \
+                        any(b2["t"]["k"] == "switch" and op_local(b2["t"]["o"]) == d for b2 in fn.bbs) or d == 0
+                    if not used:
+                        n = "fold<%s>" % "/".join(sorted({t2["f"]["name"] for c in inner for _, t2 in c.calls() if (t2["f"].get("name") or "") in FLAGGED}))
+                        kind = "unused"
             if kind is None:
                 continue
             site = (fn.id, n, kind)
@@ -293,7 +307,9 @@ def check_discard(res, facts):
                 continue
             seen.add(site)
             key = "ark_ff|%s|%s|%s" % (fn.id[-90:], n, kind)
-            why = next((r for (suf, cn, kd), r in JUSTIFIED.items() if fn.id.endswith(suf) and cn == n and kd == kind), None)
+            import re as _re
+            owner = _re.sub(r"(::\{closure#\d+\})+$", "", fn.id)      # closures are identified by their enclosing function
+            why = next((r for (suf, cn, kd), r in JUSTIFIED.items() if (fn.id.endswith(suf) or owner.endswith(suf)) and cn == n and kd == kind), None)
             if why:
                 rule.ok(key, why, fn.loc)
             elif kind == "wrap":
